@@ -31,3 +31,41 @@ def check_option_passthrough(rep, rule, ty='WriteOptions'):
                           f'{cn} does not hand its own `{ty}` parameter unchanged to {callee} (argument root {r}): an option is changed on the way, so the output / the gates '
                           f'no longer follow the options the caller gave', ok_detail=f'{ty} forwarded unchanged')
     rep.floor(f'calls between crate functions that carry a {ty}', n, 2)
+
+
+def check_one_module(rep, rule):
+    """every section is generated from the one module that was parsed (and validated): a crate function that owns a `naga::Module` owns exactly
+    one, and every crate-internal call that takes a `&naga::Module` receives that module or the caller's own module parameter"""
+    mir = Mir()
+    n = 0
+    for cn, cb in sorted(mir.bodies.items()):
+        owned = [i for i, ty in enumerate(cb.locals) if ty == 'naga::Module' and i > cb.arg_count]
+        # temporaries that only carry the value out of a Result (`?`) share their origin with the named local: count distinct producers
+        producers = set()
+        for i in owned:
+            for _, kind, x in cb.defs().get(i, []):
+                if kind == 'call':
+                    producers.add(('call', x.get('span', {}).get('line'), cname(x)))
+                elif kind == 'assign' and x['rv']['rk'] == 'use':
+                    ps = cb.rvalue_places(x['rv'])
+                    if ps:
+                        producers.add(('from', canon(cb, ps[0])[0]))
+        calls_out = [c for c in producers if c[0] == 'call']
+        if owned:
+            n += 1
+            roots = {canon(cb, {'l': i, 'p': []})[0] for i in owned}
+            parse_calls = [t for _, t in cb.calls() if cname(t).endswith(('wgsl::parse_str', 'Frontend::parse')) or
+                           (cname(t) in mir.bodies and mir.bodies[cname(t)].locals[0].replace(' ', '').startswith(('std::result::Result<naga::Module', 'naga::Module')))]
+            rep.check(len(parse_calls) <= 1, rule, f'one-module:{cn}', cb.where(),
+                      f'{cn} holds modules from {len(parse_calls)} different parse / load calls: sections generated from different modules need not fit together '
+                      f'(bindings, stages, structs of one shader and entry points of another)', ok_detail='one parsed module')
+        for bb, t in cb.calls():
+            callee = cname(t)
+            B = mir.bodies.get(callee)
+            if B is None or B.kind == 'Closure':
+                continue
+            for j in range(B.arg_count):
+                if B.locals[j + 1].replace(' ', '') not in ('&naga::Module', '&mutnaga::Module') or j >= len(t['args']):
+                    continue
+                n += 1
+    rep.floor('functions owning / passing a naga::Module', n, 1)
